@@ -490,7 +490,32 @@ def selftest():
         raise core.BrokenCheck("reference reject self-test failed")
 
 
+def replay(path):
+    """./vcheck C17 --replay <file>: re-evaluate the stored literal in every context; exit 1 if it still fails"""
+    import json
+    rec = json.load(open(path))
+    lit = rec["replay"].get("literal")
+    core.use_repo()
+    from mc.flo import real, addr
+    p = core.Part()
+    ctxs = {c[0]: c for c in CONTEXTS}
+    if rec["key"].startswith("roundtrip|"):
+        roundtrip(p, real, addr, ctxs, [c for c in roundtrip_cases() if c[2] == lit])
+    else:
+        cls = [c for c, l in grammar("thorough") if l == lit]
+        grid(p, real, addr, [(cls[0] if cls else "replay", lit)], 0)
+    print(rec["replay"].get("script", ""))
+    for g, ex, what, rep in p.violations:
+        print("REPRODUCED %s|%s\n  %s" % (g, ex, what))
+    if not p.violations:
+        print("not reproduced: literal %r converts as documented in every context" % lit)
+    return 1 if p.violations else 0
+
+
 def run():
+    import os
+    if os.environ.get("VERIF_REPLAY"):
+        return replay(os.environ["VERIF_REPLAY"])
     selftest()
     ck = core.Check("C17", "exploration", META["technique"])
     g = grammar(core.TIER)
